@@ -20,10 +20,14 @@ def cond_src(c, obliv):
 def rhs_src(r, obliv):
     import re
     if not obliv:
+        r = re.sub(r"m([01])0", r"m[\1][0]", r)
+        r = re.sub(r"a([01])", r"a[\1]", r)
         return re.sub(r"l([01])", r"l[\1]", r).replace("F", "f")
     out = r
     for v in ("x", "y", "k", "w"):
         out = out.replace(v, "_." + v)
+    out = re.sub(r"m([01])0", r"_.m[\1][0]", out)
+    out = re.sub(r"a([01])", r"_.a[\1]", out)
     return re.sub(r"l([01])", r"_.l[\1]", out)
 
 
@@ -66,6 +70,12 @@ class Emitter:
             if st[1] in ("l0", "l1"):
                 # element of a list-valued variable, modified in place
                 tgt = ("_.l[%s]" if o else "l[%s]") % st[1][1]
+            elif st[1] in ("m00", "m10"):
+                # element of a NESTED list, modified in place
+                tgt = ("_.m[%s][0]" if o else "m[%s][0]") % st[1][1]
+            elif st[1] in ("a0", "a1"):
+                # element of an Array object held in the context, modified in place
+                tgt = ("_.a[%s]" if o else "a[%s]") % st[1][1]
             self.emit(ind, "%s = %s" % (tgt, rhs_src(rhs, o)))
         elif k == "lazy":
             _, var, c, rt_, rf_ = st
@@ -146,15 +156,19 @@ def emit_program(stmts, obliv, explicit_ctx=True):
         e.emit(1, "_.l = [X, Y]")
         e.emit(1, "_.k = 5")            # variables that start as plain Python constants (int, float)
         e.emit(1, "_.w = 1.5")
+        e.emit(1, "_.m = [[X], [Y]]")   # mutable containers below the top level
+        e.emit(1, "_.a = Array([X, Y])")
         e.block(stmts, 1)
-        e.emit(1, "return _.x, _.y, _, _.l, _.k, _.w")
+        e.emit(1, "return _.x, _.y, _, _.l, _.k, _.w, _.m, _.a")
     else:
         e.emit(0, "def prog(x, y, b, n, f=None):")
         e.emit(1, "l = [x, y]")
         e.emit(1, "k = 5")
         e.emit(1, "w = 1.5")
+        e.emit(1, "m = [[x], [y]]")
+        e.emit(1, "a = [x, y]")
         e.block(stmts, 1)
-        e.emit(1, "return x, y, l, k, w")
+        e.emit(1, "return x, y, l, k, w, m, a")
     return "\n".join(e.lines) + "\n"
 
 
@@ -264,6 +278,24 @@ def programs(level):
             out.append([("while", "i!=n", mx, [a], "b")])
             out.append([("while", "x<y", mx, [a, A[0]], None)])
         out.append([("if", [("b", [("for", 2, [a], False)])], None)])
+    # --- containers below the top level (nested list, Array object) modified in place
+    NM = [("assign", "m00", "m00+1"), ("assign", "m10", "x"), ("assign", "m10", "m00+m10"), ("assign", "a0", "a0+1"),
+          ("assign", "a1", "a0*2"), ("assign", "a0", "y")]
+    for a in NM:
+        for c in CONDS:
+            out.append([("if", [(c, [a])], None)])
+            out.append([("if", [(c, [A[0]])], [a])])
+            out.append([("if", [(c, [a])], [NM[1] if a[1][0] == "m" else NM[4]])])
+        for mx in (2, 3):
+            out.append([("for", mx, [a], False)])
+            out.append([("while", "i!=n", mx, [a], "b")])
+    # --- loops directly inside loops (nesting 2), with a statement after the inner loop
+    for c_out in ("i!=n", "x<y"):
+        for mx_out in (2, 3):
+            out.append([("while", c_out, mx_out, [("while", "x<y", 2, [LA[1]], None), LA[0]], None)])
+            out.append([("while", c_out, mx_out, [("while", "i!=n", 2, [LA[0]], None), LA[1]], "b")])
+            out.append([("while", c_out, mx_out, [("for", 2, [LA[1]], False), LA[0]], None)])
+            out.append([("for", mx_out, [("while", "x<y", 2, [LA[1]], None), LA[0]], False)])
     if level >= 1:
         # nesting 2: if in if, loop in if, if in loop, loop in loop
         inner_ifs = [("if", [(c, [a])], e) for c in ("x<y", "b", "x==1") for a in A4[:2] for e in (None, [A[4]])]
